@@ -71,7 +71,7 @@ def _what(kind, prev, ev, step):
 
 
 def run(ctx):
-    H.design_level(ctx, which=("", "_sub"))
+    H.design_level(ctx, which=ctx.pick(("_sub",), ("", "_sub", "_stake")))
     counts = H.plan(ctx, "C37")
     counts = dict(counts)
     counts["renew"] = int(counts["renew"] * 1.5)       # the bias this property asks for
